@@ -1,17 +1,22 @@
 ------------------------------ MODULE RuleMech ------------------------------
 (* Layer B for rule trees (C12): how rule.py wires a tree while the user     *)
-(* writes `with refinement(c):` / `with alternative(c):` blocks, and how the *)
-(* conclusion selectors (conclusion_selector.py) pick conclusions - against  *)
-(* the ripple-down reference interpreter of Layer A.                         *)
+(* writes `with refinement(c):` / `with alternative(c):` / `with next_rule(c):`*)
+(* blocks, and how the conclusion selectors (conclusion_selector.py) pick    *)
+(* conclusions - against the ripple-down reference interpreter of Layer A.   *)
 (* Branch conditions are abstracted to booleans: for a given assignment the  *)
 (* k-th branch condition either holds or not, so the invariant quantifies    *)
 (* over all 2^n valuations - every dataset at once.                          *)
-(*   abstract  a : the RDR tree  [tag, ref, alt]  (0 = none)                  *)
+(*   abstract  a : the RDR tree  [ref, alt, edge]  (0 = none): alt = the next *)
+(*               member of the chain the node belongs to, edge = how the node *)
+(*               itself hangs on that chain ("alt": consulted where nothing   *)
+(*               before it fired; "next": always consulted as well)           *)
 (*   wired     w : the operator structure rule.py builds                      *)
-(*               leaf(tag) | except(l, r) | alt(l, r), with parent pointers   *)
+(*               leaf(tag) | except(l, r) | alt(l, r) | next(l, r), with      *)
+(*               parent pointers                                              *)
 (*   stack       : the with-blocks entered so far (ids of wired leaves)       *)
 EXTENDS Naturals, Sequences, FiniteSets, TLC, Json
 CONSTANTS MaxNodes,
+          WithNext,              \* TRUE: `with next_rule(c):` blocks are written too
           RefinementRelinks,     \* TRUE: refinement() puts the new ExceptIf in the place of the refined branch in the
                                  \* operator that holds it (commit "fix: a refinement nested under ..."); FALSE: as before
           AlternativeClimbsAll   \* TRUE: alternative() climbs to the top of the chain the current block belongs to
@@ -25,7 +30,7 @@ VARIABLES a,       \* [1..n -> [ref, alt]]         abstract tree, node 1 is the 
 vars == <<a, w, root, stack, n, hist>>
 
 Leaf(tag, parent) == [kind |-> "leaf", tag |-> tag, l |-> 0, r |-> 0, parent |-> parent]
-Init == /\ a = <<[ref |-> 0, alt |-> 0]>> /\ w = <<Leaf(1, 0)>> /\ root = 1
+Init == /\ a = <<[ref |-> 0, alt |-> 0, edge |-> "alt"]>> /\ w = <<Leaf(1, 0)>> /\ root = 1
         /\ stack = <<[wid |-> 1, aid |-> 1]>> /\ n = 1 /\ hist = <<>>
 
 Top == stack[Len(stack)]
@@ -44,7 +49,7 @@ Refine ==
          w2 == [w1 EXCEPT ![cur].parent = exc]
      IN /\ w' = IF RefinementRelinks THEN ReplaceChild(w2, pp, cur, exc) ELSE w2
         /\ root' = IF pp = 0 THEN exc ELSE root
-        /\ a' = Append([a EXCEPT ![Top.aid].ref = n + 1], [ref |-> 0, alt |-> 0])
+        /\ a' = Append([a EXCEPT ![Top.aid].ref = n + 1], [ref |-> 0, alt |-> 0, edge |-> "alt"])
         /\ stack' = Append(stack, [wid |-> leaf, aid |-> n + 1])
   /\ n' = n + 1 /\ hist' = Append(hist, "refinement")
 
@@ -56,43 +61,48 @@ LastAlt(aa, i) == IF aa[i].alt = 0 THEN i ELSE LastAlt(aa, aa[i].alt)
 \* the top of the chain of alternatives (and of the refinement whose refined branch it is) that node i belongs to
 RECURSIVE Climb(_, _)
 Climb(ws, i) == LET p == ws[i].parent
-                IN IF p # 0 /\ (ws[p].kind = "alt" \/ (ws[p].kind = "except" /\ ws[p].l = i)) THEN Climb(ws, p) ELSE i
+                IN IF p # 0 /\ (ws[p].kind \in {"alt", "next"} \/ (ws[p].kind = "except" /\ ws[p].l = i)) THEN Climb(ws, p) ELSE i
 
-\* `with alternative(c):` inside the block on top of the stack (alternative_or_next in rule.py)
-Alternative ==
+\* `with alternative(c):` / `with next_rule(c):` inside the block on top of the stack (alternative_or_next in rule.py)
+Branch(kind) ==
   /\ n < MaxNodes
   /\ LET top == Top.wid
          p1 == w[top].parent
          cur == IF AlternativeClimbsAll THEN Climb(w, top)
-                ELSE IF p1 # 0 /\ w[p1].kind = "alt" THEN p1
+                ELSE IF p1 # 0 /\ w[p1].kind \in {"alt", "next"} THEN p1
                 ELSE IF p1 # 0 /\ w[p1].kind = "except" /\ w[p1].l = top THEN p1
                 ELSE top
          pp == w[cur].parent
          leaf == NewId
          alt == NewId + 1
-         w1 == Append(Append(w, Leaf(n + 1, alt)), [kind |-> "alt", tag |-> 0, l |-> cur, r |-> leaf, parent |-> pp])
+         w1 == Append(Append(w, Leaf(n + 1, alt)), [kind |-> kind, tag |-> 0, l |-> cur, r |-> leaf, parent |-> pp])
          w2 == [w1 EXCEPT ![cur].parent = alt]
          owner == LastAlt(a, Top.aid)
      IN /\ w' = IF pp = 0 THEN w2
                ELSE IF AlternativeClimbsAll THEN ReplaceChild(w2, pp, cur, alt)
                ELSE [w2 EXCEPT ![pp].r = alt]                              \* prev_parent.right = new_conditions_root
         /\ root' = IF pp = 0 THEN alt ELSE root
-        /\ a' = Append([a EXCEPT ![owner].alt = n + 1], [ref |-> 0, alt |-> 0])
+        /\ a' = Append([a EXCEPT ![owner].alt = n + 1], [ref |-> 0, alt |-> 0, edge |-> kind])
         /\ stack' = Append(stack, [wid |-> leaf, aid |-> n + 1])
-  /\ n' = n + 1 /\ hist' = Append(hist, "alternative")
+  /\ n' = n + 1 /\ hist' = Append(hist, IF kind = "alt" THEN "alternative" ELSE "next_rule")
+Alternative == Branch("alt")
+NextRule == WithNext /\ Branch("next")
 
 Close == /\ Len(stack) > 1 /\ stack' = SubSeq(stack, 1, Len(stack) - 1)
          /\ hist' = Append(hist, "close") /\ UNCHANGED <<a, w, root, n>>
-Next == Refine \/ Alternative \/ Close
+Next == Refine \/ Alternative \/ NextRule \/ Close
 Spec == Init /\ [][Next]_vars
 View == <<a, w, root, stack, n>>
 
 \* ---------------- Layer A: ripple-down rules over a valuation v : tag -> BOOLEAN ----------------
-RECURSIVE Fire(_, _, _)
-Fire(aa, i, v) ==
-  IF i = 0 THEN <<>>
-  ELSE IF v[i] THEN LET r == Fire(aa, aa[i].ref, v) IN IF r # <<>> THEN r ELSE <<i>>
-       ELSE Fire(aa, aa[i].alt, v)
+\* a chain is consulted member by member in the order of writing: an "alt" member only where nothing before it fired,
+\* a "next" member always; a member that holds contributes the result of its refinement chain, or its own conclusion
+RECURSIVE Fire(_, _, _), FireChain(_, _, _, _)
+FireChain(aa, i, v, acc) ==
+  IF i = 0 THEN acc
+  ELSE LET own == IF v[i] THEN (LET r == Fire(aa, aa[i].ref, v) IN IF r # <<>> THEN r ELSE <<i>>) ELSE <<>>
+       IN FireChain(aa, aa[i].alt, v, IF aa[i].edge = "next" THEN acc \o own ELSE IF acc # <<>> THEN acc ELSE own)
+Fire(aa, i, v) == FireChain(aa, i, v, <<>>)
 
 \* ---------------- Layer B: what the selectors yield ----------------
 RECURSIVE EvalW(_, _, _)
@@ -109,6 +119,10 @@ EvalW(ws, i, v) ==
          IF lft.holds THEN [holds |-> TRUE, concl |-> lft.concl]
          ELSE LET rgt == EvalW(ws, x.r, v) IN
               IF rgt.holds THEN [holds |-> TRUE, concl |-> rgt.concl] ELSE [holds |-> FALSE, concl |-> <<>>]
+    [] x.kind = "next" ->      \* a union: both sides are always evaluated
+         LET lft == EvalW(ws, x.l, v)
+             rgt == EvalW(ws, x.r, v)
+         IN [holds |-> lft.holds \/ rgt.holds, concl |-> lft.concl \o rgt.concl]
 
 WiredEqualsFire == \A v \in [1..n -> BOOLEAN] : EvalW(w, root, v).concl = Fire(a, 1, v)
 \* every wired node is reachable from the root exactly through its parent pointer
